@@ -169,6 +169,21 @@ func vRoundTrip(c chunk) chunk {
 	return q.chunks[0]
 }
 
+// C12.L1e: the reserved 16 bits of an I-DATA chunk are sent as zero (RFC 8260), whatever
+// the message identifier: an emitted chunk is well-formed for a decoder that checks them.
+func vh_C12_L1_idata_reserved_field_is_zero() {
+	in := &chunkPayloadData{
+		tsn: nondetU32(), streamIdentifier: nondetU16(), messageIdentifier: nondetU32(), fragmentSequenceNumber: nondetU32(),
+		payloadType: PayloadTypeWebRTCBinary, userData: nondetBytes(1), beginningFragment: nondetBool(), endingFragment: nondetBool(), iData: true,
+	}
+	in.streamSequenceNumber = uint16(in.messageIdentifier) // as Stream.packetize and the decoder set it
+	raw, err := (&packet{sourcePort: 1, destinationPort: 1, chunks: []chunk{in}}).marshal(true)
+	vassert(err == nil && len(raw) >= packetHeaderSize+chunkHeaderSize+16, "I-DATA marshals")
+	v := raw[packetHeaderSize+chunkHeaderSize:]
+	vassert(v[6] == 0 && v[7] == 0, "the reserved field after the stream identifier is zero on the wire")
+	vcover("end")
+}
+
 func vh_C12_L1_roundtrip_data() {
 	n := vPick(5) // payload length 0..4
 	in := &chunkPayloadData{
